@@ -57,7 +57,7 @@ def gen_history(r, layout, n, uniq):
         else:
             a = r.randrange(0, 65536)
         span = max(1, hi - a + 1)
-        q = r.choice([1, 1, 2, 3, min(span, 8), span, span + 1]) if r.random() < 0.85 else r.randint(1, 30)
+        q = r.choice([1, 1, 2, 3, 4, 5, 6, 7, min(span, 8), span, span + 1]) if r.random() < 0.85 else r.randint(1, 30)
         q = max(1, min(q, 120))
         m = {'dir': REQ, 'fc': fc}
         if fc in (1, 2, 3, 4):
